@@ -4,7 +4,7 @@ CONSTANTS NLev, CSet, KVals, Mode       \* Mode = "values": small samples with t
 MCKa == {-1, 0, 1}
 MCKb == {3}
 MCKm == {-1, 0, 1}
-MCKd == {0, 1}
+MCKd == {0, 1, 2}
 MCCa == 0..2
 MCCm == {100, 200, 300}
 MCCd == {0, 1}
